@@ -776,6 +776,30 @@ func (r *vfC16Run) stepAdminDelete() {
 	if code := r.rig.DeleteSessions(vfC16CID); code != 200 {
 		r.inconclusive("admin delete", fmt.Errorf("status %d", code))
 	}
+	// The delete event reaches the broker's watcher some time after the record was deleted. Until
+	// then the client, still connected, may go on changing its session; those writes re-create the
+	// record. The delete still has to disconnect the client.
+	between := rapid.IntRange(0, 2).Draw(r.rt, "stepsBeforeDeleteEvent")
+	for i := 0; i < between && !r.abandon && r.live != nil && !r.live.EOF(); i++ {
+		if rapid.Bool().Draw(r.rt, "subOrUnsub") {
+			r.stepSub()
+		} else {
+			r.stepUnsub()
+		}
+		if err := r.rig.StoreFence(); err != nil {
+			r.inconclusive("store fence", err)
+		}
+	}
+	if between > 0 {
+		r.log("(delete event delivered now)")
+		r.vf.Class("session-changed-between-admin-delete-and-its-event")
+		if _, ok := r.rig.store.sessionTopics(vfC16CID); ok {
+			r.vf.Class("record-recreated-before-delete-event")
+		}
+	}
+	if r.abandon || r.live == nil {
+		return
+	}
 	if _, err := r.rig.FlushWatch(); err != nil {
 		r.inconclusive("flush watch", err)
 	}
@@ -790,6 +814,10 @@ func (r *vfC16Run) stepAdminDelete() {
 	}
 	if !r.live.WaitEOF(time.Until(deadline)) && !r.live.EOF() {
 		r.violation("admin-delete-did-not-disconnect-client", "connection %s is still served 20 s after its session was deleted through the admin endpoint", r.live.Label)
+		return
+	}
+	if bc := r.rig.registered(vfC16CID); bc != nil && bc.conn.RemoteAddr().String() == r.live.LocalAddr() {
+		r.violation("admin-delete-left-client-registered", "connection %s was closed but is still registered after its session was deleted", r.live.Label)
 		return
 	}
 	r.vf.Class("admin-delete-disconnected-client")
